@@ -13,7 +13,7 @@ def check_C14(tier, seed):
         segment_map.generate(D.REPO, os.path.join(D.COQ, "theories", "Gen", "SegmentMap.v"))
     t1.__name__ = "T1 segment_map (partition_segment.rs, codec.rs)"
     return standard_check(
-        "C14", tier, seed, "files", ["c14_envelope", "c14_segments", "c14_catalogue", "c14_wal"], translators=[t1],
+        "C14", tier, seed, "files", ["c14_envelope", "c14_segments", "c14_catalogue", "c14_wal", "c14_open_corrupt"], translators=[t1],
         trusted=["sha2 crate as the digest (supplied to the model as an oracle leaf; theorems quantify over any digest function with 32-byte output)",
                  "capnp packed serialisation is not modelled: partition-segment, catalogue and WAL-segment round trips are checked by the object-level oracle suites only",
                  "translator T1 (translators/segment_map.py): codec-op / data-section / encoding-type match arms of PartitionSegment::{serialize,deserialize}"],
